@@ -17,7 +17,8 @@ sys.path.insert(0, os.path.join(os.path.dirname(os.path.abspath(__file__)), ".."
 from vlib import core, build, pairlib as pl
 
 REL, ABS = 2e-5, 1e-9
-KINDS = [("general", "general"), ("on", "general"), ("general", "on"), ("on", "on"), ("axis", "plane"), ("plane", "axis"), ("axis", "axis")]
+KINDS = [("general", "general"), ("on", "general"), ("general", "on"), ("on", "on"), ("axis", "plane"), ("plane", "axis"), ("axis", "axis"),
+         ("near", "general"), ("general", "near"), ("near", "on")]
 # counterfactuals tried in this order; the first that brings the block within tolerance names the finding(s)
 ATTRIBUTION = [
     ("tailcut-left-end", "no-tail-cut"),
@@ -144,6 +145,8 @@ def explore(ctx, cases=None):
         pl.run_model([f[0] for f in fails], sws)
         for r, o, err, tol in fails:
             fid, table = attribute(r, o["v"], tol)
+            if not proofs_ok or corr_bad:
+                fid = None      # the model's counterfactuals say nothing about the code when model and code disagree
             i = max(range(len(r.vals)), key=lambda j: abs(r.vals[j] - o["v"][j]))
             out.append({"case": r.case, "request": pl.fmt_case(r.case), "error": err, "allowed": tol, "block_max": r.maxabs(), "worst_element": i,
                         "returned": r.vals[i], "exact": o["v"][i], "attributed_to": fid, "counterfactual_errors": table,
